@@ -101,8 +101,10 @@ def cases(tier, rng):
             continue
         user = rng.random() < 0.2
         w = [rng.randint(1, 4) for _ in range(nr * nc)] if user else None
-        yield {"k": 900, "args": [[100000 + t]], "call": {"nr": nr, "nc": nc, "ds": ds, "s": s, "method": "ihu", "w": w, "scale": 1,
-                                                          "outside": rng.choice([0, 7]) if user else 0}, "group": f"ihu-large-s{s}"}
+        # a third of these through eam_plus (the exactly modelled first stage of ihu: any difference shows) -- round-3 seed
+        mth = "eam_plus" if rng.random() < (0.06 if tier == "quick" else 0.3) else "ihu"     # (the exact model is slow on large rasters)
+        yield {"k": 900, "args": [[100000 + t]], "call": {"nr": nr, "nc": nc, "ds": ds, "s": s, "method": mth, "w": w, "scale": 1,
+                                                          "outside": rng.choice([0, 7]) if user else 0}, "group": f"{mth}-large-s{s}"}
     n = 1200 if tier == "quick" else 10000
     for t in range(n):
         style = rng.random()
